@@ -7,7 +7,8 @@ import json, os, subprocess, sys, shutil, re
 from concurrent.futures import ThreadPoolExecutor
 
 VERIF = "/verif"
-VDIR = f"{VERIF}/selftest/variants"
+VDIR = os.environ.get("VARIANT_DIR", f"{VERIF}/selftest/variants")
+ALL_BENIGN = bool(os.environ.get("ALL_BENIGN"))
 W = int(sys.argv[1]) if len(sys.argv) > 1 else 4
 FILT = sys.argv[2] if len(sys.argv) > 2 else ""
 variants = sorted(f[:-5] for f in os.listdir(VDIR) if f.endswith(".diff") and FILT in f)
@@ -37,7 +38,7 @@ def worker(k, items):
             m = re.search(r"key=(\S.*)$", line)
             if m and not line.startswith("VIOLATION") and not line.startswith("KNOWN-FINDING"):
                 keys.append(m.group(1))
-        if v.startswith("benign-"):
+        if v.startswith("benign-") or ALL_BENIGN:
             verdict = "ok-silent" if not keys else "FALSE-ALARM"
         else:
             rule = v.split("-")[0]
@@ -53,6 +54,6 @@ chunks = [variants[i::W] for i in range(W)]
 with ThreadPoolExecutor(W) as ex:
     list(ex.map(lambda a: worker(*a), enumerate(chunks)))
 bad = [v for v, (x, _) in results.items() if not x.startswith("ok")]
-json.dump({v: {"verdict": x, "keys": k} for v, (x, k) in sorted(results.items())}, open(f"{VERIF}/selftest/last_run.json", "w"), indent=1)
+json.dump({v: {"verdict": x, "keys": k} for v, (x, k) in sorted(results.items())}, open(os.environ.get("VARIANT_OUT", f"{VERIF}/selftest/last_run.json"), "w"), indent=1)
 print("variants", len(results), "bad", bad)
 sys.exit(1 if bad else 0)
